@@ -10,7 +10,7 @@ Local Open Scope Z_scope.
 Theorem C14_roundtrip : forall L oids rows tail,
   16 <= L -> lenZ oids < 65535 -> forallb (wf_row L oids) rows = true ->
   (tail = [] \/ exists junk, tail = copy_trailer ++ junk) ->
-  decode_all L oids EDone [copy_header ++ flat_map (enc_row oids) rows ++ tail] = (rows, REnd).
+  decode_all L oids EDone [copy_header ++ flat_map (enc_row oids) rows ++ tail] = (rows, CEnd).
 Proof. exact decode_all_roundtrip. Qed.
 Print Assumptions C14_roundtrip.
 
@@ -27,7 +27,7 @@ Theorem C14_any_split : forall L oids rows tail chunks,
   16 <= L -> lenZ oids < 65535 -> forallb (wf_row L oids) rows = true ->
   (tail = [] \/ exists junk, tail = copy_trailer ++ junk) ->
   concat chunks = copy_header ++ flat_map (enc_row oids) rows ++ tail ->
-  decode_all L oids EDone chunks = (rows, REnd).
+  decode_all L oids EDone chunks = (rows, CEnd).
 Proof.
   intros L oids rows tail chunks HL Hc W Ht E.
   rewrite (decode_all_chunking L oids EDone chunks [copy_header ++ flat_map (enc_row oids) rows ++ tail]).
@@ -40,16 +40,16 @@ Print Assumptions C14_any_split.
 Theorem C14_bad_count : forall L oids e segs a b rest,
   read_full 1 segs <> None -> read_full 2 segs = Some ([a; b], rest) ->
   rd16 a b <> 65535 -> rd16 a b <> lenZ oids ->
-  fst (read_row L oids e {| b_segs := segs; b_started := true; b_over := false |}) = RFail.
+  fst (read_row L oids e {| b_segs := segs; b_started := true; b_over := false |}) = CFail.
 Proof. exact read_row_bad_count. Qed.
 Print Assumptions C14_bad_count.
 
 (* [decode_all] is a total function: truncated fields, lengths pointing past the end
-   of the stream or above the limit end in RFail (an error), there is no crash outcome *)
+   of the stream or above the limit end in CFail (an error), there is no crash outcome *)
 Example C14_ex_truncated :
-  decode_all 64 [23; 25] EDone [copy_header ++ be16 2 ++ be32 4 ++ be32 7 ++ be32 9 ++ [x61; x62]] = ([], RFail).
+  decode_all 64 [23; 25] EDone [copy_header ++ be16 2 ++ be32 4 ++ be32 7 ++ be32 9 ++ [x61; x62]] = ([], CFail).
 Proof. vm_compute. reflexivity. Qed.
 Example C14_ex_split :
   decode_all 64 [23; 25] EDone [firstn 5 copy_header; skipn 5 copy_header ++ be16 2 ++ be32 4 ++ [x00; x00]; [x00; x07] ++ be32 4294967295 ++ [xff]; [xff]]
-  = ([[DInt 7; DNull]], REnd).
+  = ([[DInt 7; DNull]], CEnd).
 Proof. vm_compute. reflexivity. Qed.
